@@ -231,9 +231,9 @@ BACKEND_FLAGS = {
     'z3s': ['--z3', '--slice-formula'],   # slicing also avoids an smt2_conv invariant failure on eval.c's constant union
     'cvc5': ['--cvc5'],
 }
-SAFETY_FLAGS = ['--bounds-check', '--pointer-check', '--div-by-zero-check', '--signed-overflow-check',
-                '--conversion-check', '--undefined-shift-check', '--pointer-overflow-check', '--float-overflow-check',
-                '--nan-check', '--pointer-primitive-check']
+# undefined-behaviour checks used by the C19 instances.  Not used: --conversion-check / --float-overflow-check / --nan-check (they flag
+# conversions and IEEE results that C defines), --pointer-overflow-check and --pointer-primitive-check (failures cannot be confirmed natively).
+SAFETY_FLAGS = ['--bounds-check', '--pointer-check', '--div-by-zero-check', '--signed-overflow-check', '--undefined-shift-check']
 RESULT_RE = re.compile(r'^\[(\S+)\] (?:line (\d+) )?(.*): (SUCCESS|FAILURE|UNKNOWN)$', re.M)
 
 
@@ -416,7 +416,8 @@ class Runner:
             open(os.path.join(outdir, fn), 'w').write(txt)
         exe = os.path.join(outdir, 'replay.bin')
         objs = [os.path.join(self.b.nat, u + '.o') for u in list(inst.units) + [x for x in inst.native_units if x not in inst.units]]
-        cmd = ['gcc', '-O0', '-g', '-w', '-fno-builtin', '-DREPLAY', '-D' + GUARD, '-I', outdir, '-I', self.b.raw,
+        san = ['-fsanitize=address,undefined', '-fno-sanitize-recover=all'] if inst.safety else []
+        cmd = ['gcc', '-O0', '-g', '-w', '-fno-builtin'] + san + ['-DREPLAY', '-D' + GUARD, '-I', outdir, '-I', self.b.raw,
                '-I', os.path.join(VERIF, 'harness')] + _defs_args(inst.defs) + \
               [os.path.join(VERIF, 'harness', inst.harness), os.path.join(VERIF, 'harness', 'replay_rt.c')] + objs + ['-lm', '-o', exe]
         with open(os.path.join(outdir, 'run.sh'), 'w') as f:
